@@ -193,6 +193,10 @@ func extraConditions(p heapPlace, f heapFollow) []string {
 				continue
 			}
 			env := provEnv{chain: chain}
+			if cf.via != nil {
+				// the comparison lives in a boolean helper (h.inBounds(0)): its operands are read in the helper's frame
+				env = provEnv{chain: append(append([]*ssa.Call{}, chain...), cf.via)}
+			}
 			out = append(out, symOf(cf.x, env).String()+" "+cf.op.String()+" "+symOf(cf.y, env).String())
 		}
 	}
@@ -547,6 +551,21 @@ func ruleHeapDirection(c *Ctx, r *R) {
 					// i, p = p, parent(p): i continues at p, which is its parent
 					if pp, ok := e.(*ssa.Phi); ok && pp.Block() == phi.Block() && heapRelOf(pp, phi, "parent", -1) {
 						cont = true
+					}
+					// i = h.liftOnce(i): one step in a helper that hands back parent(i) of the index it was given
+					if hc, ok := e.(*ssa.Call); ok && staticCallee(&hc.Call) != nil && fname(staticCallee(&hc.Call)) != "parent" {
+						all, any := true, false
+						for _, rv := range returnedBy(staticCallee(&hc.Call), 0) {
+							pc, isCall := resolveVal(rv).(*ssa.Call)
+							if !isCall || staticCallee(&pc.Call) == nil || fname(staticCallee(&pc.Call)) != "parent" || len(pc.Call.Args) != 1 || argOf(pc.Call.Args[0], []*ssa.Call{hc}) != ssa.Value(phi) {
+								all = false
+								continue
+							}
+							any = true
+						}
+						if all && any {
+							cont = true
+						}
 					}
 				}
 			}
@@ -1001,6 +1020,7 @@ func rulePQInitial(c *Ctx, r *R) {
 		paramMap := map[*ssa.Function]*ssa.Call{}
 		seen := map[ssa.Value]bool{}
 		appendGuarded := true
+		notRecorded := false
 		nApp := 0
 		var walk func(v ssa.Value)
 		walk = func(v ssa.Value) {
@@ -1019,11 +1039,11 @@ func rulePQInitial(c *Ctx, r *R) {
 					// under the not-seen branch: guard ok == false of a lookup in m
 					g2 := false
 					for _, g := range guardsOf(x.Block()) {
-						if vv, val := g.boolVal(); !val {
-							if e, ok := vv.(*ssa.Extract); ok && e.Index == 1 {
-								if _, ok := e.Tuple.(*ssa.Lookup); ok {
-									g2 = true
-								}
+						if vv, val := g.boolVal(); !val && isMapMembership(vv, 0) {
+							g2 = true
+							// ... and the key that was not seen is recorded as seen on that branch, in the map the test reads
+							if !recordsSeen(x.Parent(), g, vv) {
+								notRecorded = true
 							}
 						}
 					}
@@ -1091,6 +1111,10 @@ func rulePQInitial(c *Ctx, r *R) {
 		good = allSliced && appendGuarded && nApp >= 1
 		if !appendGuarded {
 			why = "an append to the filtered slice is not under the key-not-yet-seen branch"
+		}
+		if notRecorded {
+			good = false
+			why = "on the key-not-yet-seen branch the key is not recorded in the map the membership test reads: the next occurrence of the same key is kept too"
 		}
 	}
 	r.ok(good, "xheap.NewPriorityQueue|dedup-before-heap", fn.Pos(), "a queue built from an initial list must hold each distinct key once: "+why)
@@ -1421,4 +1445,104 @@ func compactedPrefix(sl *ssa.Slice) bool {
 		return false
 	}
 	return ok(sl.High) && incs >= 1
+}
+
+// isMapMembership: v is the comma-ok of a map lookup - directly, or as the single result of a module helper that only does
+// that lookup (xmaps.Set.Contains).
+func isMapMembership(v ssa.Value, depth int) bool {
+	if depth > 2 {
+		return false
+	}
+	if e, ok := v.(*ssa.Extract); ok && e.Index == 1 {
+		if lk, ok := e.Tuple.(*ssa.Lookup); ok && lk.CommaOk {
+			return true
+		}
+	}
+	call, ok := v.(*ssa.Call)
+	if !ok {
+		return false
+	}
+	cal := staticCallee(&call.Call)
+	if cal == nil || cal.Blocks == nil || curCtx == nil || !curCtx.inModule(cal) || cal.Signature.Results().Len() != 1 {
+		return false
+	}
+	rets := returnedBy(cal, 0)
+	if len(rets) != 1 {
+		return false
+	}
+	return isMapMembership(rets[0], depth+1)
+}
+
+// membershipOperands: the map and the key of a membership test (see isMapMembership), as access paths in the caller's terms.
+func membershipOperands(v ssa.Value) (m, k string, ok bool) {
+	if e, isE := v.(*ssa.Extract); isE {
+		if lk, isL := e.Tuple.(*ssa.Lookup); isL {
+			return path(resolveVal(lk.X)), path(resolveVal(lk.Index)), true
+		}
+	}
+	call, isC := v.(*ssa.Call)
+	if !isC {
+		return "", "", false
+	}
+	cal := staticCallee(&call.Call)
+	if cal == nil {
+		return "", "", false
+	}
+	rets := returnedBy(cal, 0)
+	if len(rets) != 1 {
+		return "", "", false
+	}
+	e, isE := rets[0].(*ssa.Extract)
+	if !isE {
+		return "", "", false
+	}
+	lk, isL := e.Tuple.(*ssa.Lookup)
+	if !isL {
+		return "", "", false
+	}
+	return path(resolveVal(argOf(lk.X, []*ssa.Call{call}))), path(resolveVal(argOf(lk.Index, []*ssa.Call{call}))), true
+}
+
+// recordsSeen: somewhere under the false edge of the membership guard g (test value tv) the function stores the tested key
+// into the tested map - directly, or through a module helper whose body is that one map update (xmaps.Set.Add).
+func recordsSeen(fn *ssa.Function, g guard, tv ssa.Value) bool {
+	m, k, ok := membershipOperands(tv)
+	if !ok {
+		return true // cannot name the operands: left to the other obligations
+	}
+	found := false
+	instrs(fn, func(b *ssa.BasicBlock, _ int, in ssa.Instruction) {
+		if found {
+			return
+		}
+		under := false
+		for _, g2 := range guardsOf(b) {
+			if v2, val2 := g2.boolVal(); v2 == tv && !val2 {
+				under = true
+			}
+		}
+		if !under {
+			return
+		}
+		switch x := in.(type) {
+		case *ssa.MapUpdate:
+			if path(resolveVal(x.Map)) == m && path(resolveVal(x.Key)) == k {
+				found = true
+			}
+		case *ssa.Call:
+			cal := staticCallee(&x.Call)
+			if cal == nil || cal.Blocks == nil || curCtx == nil || !curCtx.inModule(cal) {
+				return
+			}
+			instrs(cal, func(_ *ssa.BasicBlock, _ int, in2 ssa.Instruction) {
+				if mu, ok := in2.(*ssa.MapUpdate); ok {
+					if path(resolveVal(argOf(mu.Map, []*ssa.Call{x}))) == m && path(resolveVal(argOf(mu.Key, []*ssa.Call{x}))) == k {
+						found = true
+					}
+				}
+			})
+		}
+	})
+	_ = g
+	return found
 }
